@@ -14,30 +14,39 @@
 EXTENDS Naturals, Sequences, FiniteSets, TLC
 
 CONSTANTS NDocs,     \* documents, numbered in shipped order
-          Threads    \* indexing workers ({1} = writer_with_num_threads(1, ..))
+          Threads,   \* indexing workers ({1} = writer_with_num_threads(1, ..))
+          MaxRebuilds \* how often the index is rebuilt in place (stored hash differs: delete_all_documents + add again)
 
 Docs == 1..NDocs
 
 VARIABLES next,      \* next document (shipped order) still to be handed out
           seg,       \* seg[t] = documents worker t has put into its current segment
-          published  \* <<>> before commit; afterwards the segments in searcher order
-ibvars == <<next, seg, published>>
+          published, \* <<>> before the first commit; afterwards the live segments in searcher order
+          building,  \* a writer is adding documents (between delete_all and commit)
+          rebuilds
+ibvars == <<next, seg, published, building, rebuilds>>
 
-IBInit == next = 1 /\ seg = [t \in Threads |-> <<>>] /\ published = <<>>
+IBInit == next = 1 /\ seg = [t \in Threads |-> <<>>] /\ published = <<>> /\ building = TRUE /\ rebuilds = 0
 
 \* a worker takes the next document from the channel
-Take(t) == /\ next <= NDocs /\ published = <<>>
+Take(t) == /\ next <= NDocs /\ building
            /\ seg' = [seg EXCEPT ![t] = Append(@, next)] /\ next' = next + 1
-           /\ UNCHANGED published
+           /\ UNCHANGED <<published, building, rebuilds>>
 
 Perms(S) == {f \in [1..Cardinality(S) -> S] : \A i, j \in 1..Cardinality(S) : i # j => f[i] # f[j]}
 \* commit: all non-empty segments become visible, in an order the writer does not promise
-Commit == /\ next > NDocs /\ published = <<>>
+\* (the segments of an earlier build are wholly deleted by delete_all_documents: they contribute nothing)
+Commit == /\ next > NDocs /\ building
           /\ LET ne == {t \in Threads : seg[t] # <<>>} IN
              \E order \in Perms(ne) : published' = [i \in 1..Cardinality(ne) |-> seg[order[i]]]
-          /\ UNCHANGED <<next, seg>>
+          /\ building' = FALSE
+          /\ UNCHANGED <<next, seg, rebuilds>>
+\* the stored hash no longer matches: the same index is emptied and filled again by a new writer
+Rebuild == /\ ~building /\ rebuilds < MaxRebuilds
+           /\ building' = TRUE /\ next' = 1 /\ seg' = [t \in Threads |-> <<>>] /\ rebuilds' = rebuilds + 1
+           /\ UNCHANGED published             \* readers keep the old segments until the new commit
 
-IBNext == (\E t \in Threads : Take(t)) \/ Commit
+IBNext == (\E t \in Threads : Take(t)) \/ Commit \/ Rebuild
 IBSpec == IBInit /\ [][IBNext]_ibvars
 
 RECURSIVE Flat(_)
